@@ -206,6 +206,10 @@ def xseqs():
     s.append((0, [X("define", B, V0), X("define", A, V0), X("export", A, V0), X("use", B, tgt=A), X("setq", A, V0), X("unuse", B, tgt=A)]))
     s.append((0, [X("setq", B, V0), X("export", A, V0), X("use", B, tgt=A), X("define", A, V0), X("defparameter", A, V0), X("unuse", B, tgt=A)]))
     s.append((0, [X("define", B, F2), X("define", A, F2), X("export", A, F2), X("use", B, tgt=A), X("define", A, F2), X("unuse", B, tgt=A)]))
+    # the user (already attached) has its own name; the home package defines and exports the same name later
+    s.append((xinit(b_uses_a=1), [X("define", B, V0), X("define", A, V0), X("export", A, V0), X("setq", A, V0), X("unexport", A, V0), X("unuse", B, tgt=A)]))
+    s.append((xinit(b_uses_a=1), [X("define", B, F2), X("define", A, F2), X("export", A, F2), X("define", A, F2), X("unexport", A, F2), X("unuse", B, tgt=A)]))
+    s.append((xinit(b_uses_a=1, c_uses_a=1), [X("define", B, V0), X("export", A, V0), X("define", A, V0), X("unbind", A, V0), X("setq", C, V0), X("unbind", B, V0)]))
     # use, unuse, use again
     s.append((xinit(exports=[(A, V0), (A, F2)]), [X("define", A, V0), X("define", A, F2), X("use", B, tgt=A), X("unuse", B, tgt=A), X("use", B, tgt=A), X("setq", B, V0)]))
     s.append((0, [X("define", A, V0), X("use", B, tgt=A), X("export", A, V0), X("unuse", B, tgt=A), X("unexport", A, V0), X("use", B, tgt=A)]))
@@ -388,13 +392,13 @@ def main():
     import random
     rng = random.Random(1313)
     xq = xsample(rng, 120, 4) + xsample(rng, 40, 6)
-    xt = list(xq) + xsample(rng, 1500, 5) + xsample(rng, 1500, 6)
+    xt = list(xq) + xsample(rng, 1000, 5) + xsample(rng, 1000, 6)
     xs = xseqs()
     xcommon = dict(common, assumptions=["resolving a name has no side effect on the package tables is NOT assumed here: every case compares after every step"])
     spec += [
         dict(xcommon, id="C13.x.history", entry="VerifC13XHistory", reach=["compared"],
              cases={"quick": xq, "thorough": xt},
-             note="sampled histories: quick 120 of length 4 and 40 of length 6, thorough additionally 1500 of length 5 and 1500 of "
+             note="sampled histories: quick 120 of length 4 and 40 of length 6, thorough additionally 1000 of length 5 and 1000 of "
                   "length 6. " + XNOTE),
         dict(xcommon, id="C13.x.seq", entry="VerifC13XHistory", reach=["compared"],
              cases={"quick": xs, "thorough": xs},
